@@ -219,6 +219,13 @@ def text_pairs(g, n):
         if r.random() < 0.2:
             eb += b'\n'
         out.append((ea, eb))
+    # texts that differ only in the NUMBER of final newlines (and edits next to such an ending)
+    for base in (b'hello', b'a\nb', b'', b'x\n\ny', b'{\n "k": 1\n}'):
+        for i in range(4):
+            for j in range(4):
+                out.append((base + b'\n' * i, base + b'\n' * j))
+                if i != j:
+                    out.append((b'first\n' + base + b'\n' * i, b'FIRST\n' + base + b'\n' * j))
     return out
 
 
